@@ -276,6 +276,58 @@ def schema_choice(tag):
     return len(facts), ('; '.join(problems[:5]) if problems else None)
 
 
+def ratio_edges(tag):
+    """the handler's own test on allocation_ratio (make_inventory_object: NaN, infinities, anything beyond
+    +-SQL_SP_FLOAT_MAX -> 400) against Decode.num_ratio / the regenerated schema: one POST of an inventory with
+    reserved == total (capacity 0 whatever the sign of the ratio, accepted from 1.26) per edge value.
+    -> (n cases, [problems])"""
+    import math
+    from placement.db import constants as db_const
+    M = db_const.SQL_SP_FLOAT_MAX
+    IM = int(M)
+    edges = [float('nan'), float('inf'), float('-inf'), 1e308, -1e308, M, -M, math.nextafter(M, math.inf),
+             math.nextafter(-M, -math.inf), math.nextafter(M, 0), math.nextafter(-M, 0), IM, -IM, IM + 1, -IM - 1, IM - 1, 1 - IM,
+             10 ** 400, -10 ** 400, 10 ** 40, -10 ** 40, 0, 0.0, -0.0, 1, -1, 1.5, -1.5, 16, 1e-300, -1e-300, 5e-324,
+             2 ** 127, -2 ** 127, 2 ** 128, -2 ** 128, float(2 ** 128), -float(2 ** 128), 3.4e38, -3.4e38, 3.5e38, -3.5e38]
+    os.makedirs(WORK, exist_ok=True)
+    app = impl.App()
+    hist.observe(app, ('rp_create', 39, 1, 1, None))
+    url = '/resource_providers/%s/inventories' % ops.uuid_of(1)
+    got, terms = [], []
+    problems = []
+    try:
+        for r in edges:
+            doc = {'resource_class': 'VCPU', 'total': 4, 'reserved': 4, 'allocation_ratio': r}
+            resp = app.request('POST', url, body=doc, version='1.39', headers={'x-roles': 'admin,service'})
+            st = resp.status
+            if st >= 500:
+                problems.append('allocation_ratio %r answered %d' % (r, st))
+            got.append(1 if st == 201 else 0)
+            if st == 201:
+                app.request('DELETE', url + '/VCPU', version='1.39', headers={'x-roles': 'admin,service'})
+            j = schemas_mod.cjson(doc)
+            terms.append('(if validate S_inventory__POST_INVENTORY_SCHEMA (%s) then '
+                         'match dec_inv_post (fun _ => 0) (%s) with Some _ => 1 | None => 0 end else 0)' % (j, j))
+    finally:
+        app.close()
+    path = os.path.join(WORK, 'ratio_edges_%s.v' % tag)
+    with open(path, 'w') as f:
+        f.write(HEADER)
+        f.write('Eval vm_compute in [%s].\n' % ';\n  '.join(terms))
+    flags = run_coq_flags(path, len(edges), timeout=600)
+    for r, a, b in zip(edges, got, flags):
+        if a != b:
+            problems.append('allocation_ratio %r: the service %s it, Decode.dec_inv_post %s it'
+                            % (r, 'accepts' if a else 'rejects', 'accepts' if b else 'rejects'))
+    if not problems:
+        for ext in ('.v', '.vo', '.vok', '.vos', '.glob'):
+            try:
+                os.remove(path[:-2] + ext)
+            except OSError:
+                pass
+    return len(edges), problems
+
+
 if __name__ == '__main__':
     n, bad, kinds = decode_stream(int(sys.argv[1]), int(sys.argv[2]), int(sys.argv[3]), 'cli')
     print(kinds)
@@ -284,4 +336,6 @@ if __name__ == '__main__':
     print('%d decoded bodies, %d disagreements' % (n, len(bad)))
     nf, err = schema_choice('cli')
     print('%d schema-choice facts, problems: %s' % (nf, err))
-    sys.exit(1 if bad or err else 0)
+    nr, rprob = ratio_edges('cli')
+    print('%d ratio edges, problems: %s' % (nr, rprob))
+    sys.exit(1 if bad or err or rprob else 0)
